@@ -232,6 +232,14 @@ func (sh shape) frames(stream uint32, fields [][2]string) []hw.Spec {
 		datas = []hw.Spec{{T: "data", Stream: stream, Len: 5, Pad: 255}}
 	case "3,4":
 		datas = []hw.Spec{{T: "data", Stream: stream, Len: 3}, {T: "data", Stream: stream, Len: 4}}
+	default:
+		// comma separated explicit sizes (frame-size boundaries)
+		for _, f := range strings.Split(sh.Data, ",") {
+			var n int
+			if _, err := fmt.Sscanf(f, "%d", &n); err == nil {
+				datas = append(datas, hw.Spec{T: "data", Stream: stream, Len: n})
+			}
+		}
 	}
 	switch sh.End {
 	case "es":
@@ -311,6 +319,17 @@ func scenarios(tier string) []scenario {
 		rs := shs[(i*7+3)%len(shs)]
 		out = append(out, scenario{Fam: "lifecycle", Name: "req{" + sh.String() + "} res{" + rs.String() + "}", Class: classOf(sh) + "|" + classOf(rs),
 			Steps: []step{settingsStep(), {Client: sh.frames(1, reqFields)}, {Server: rs.frames(1, resFields)}}})
+	}
+	// F1c: DATA sizes at the max frame size boundary (default 16384, and 20000 after a SETTINGS change)
+	for _, d := range []string{"16383", "16384", "16385", "32768", "16384,16384", "20000", "1,16384"} {
+		for _, e := range []string{"es", "trailers1"} {
+			sh := shape{Frags: 1, Data: d, End: e}
+			out = append(out, scenario{Fam: "framesize", Name: "req{" + sh.String() + "} res{same}",
+				Steps: []step{settingsStep(), {Client: sh.frames(1, reqFields)}, {Server: sh.frames(1, resFields)}}})
+			out = append(out, scenario{Fam: "framesize", Name: "max frame size 20000: req{" + sh.String() + "} res{same}",
+				Steps: []step{{Client: []hw.Spec{{T: "settings", Settings: [][2]uint32{{5, 20000}}}}, Server: []hw.Spec{{T: "settings", Settings: [][2]uint32{{5, 20000}}}}},
+					{Client: sh.frames(1, reqFields)}, {Server: sh.frames(1, resFields)}}})
+		}
 	}
 	// F1b: both directions at once (response headers already out), schedules explored
 	core := []shape{{Frags: 1, Data: "3,4", End: "es"}, {Frags: 2, Data: "5", End: "trailers1"}, {Frags: 1, Data: "5p1", End: "rst"}, {Frags: 3, Prio: true, Data: "5+0es", End: "es"}}
